@@ -875,13 +875,13 @@ fn f7(tier: &Tier) -> Vec<(Box<dyn Family>, u64)> {
         ),
         (
             Box::new(Grid::f1().with_root(RootMenu::List(vec![vec![3, 0, 0], vec![3, 3, 0], vec![3, 3, 3], vec![1, 0, 2]]))),
-            if q { 16 } else { 1 },
+            if q { 16 } else { 4 },
         ),
         // the interference families (constrains between transitive packages, back edges)
         (Box::new(F8b), 1),
-        (Box::new(F9 { wide: false }), if q { 997 } else { 31 }),
+        (Box::new(F9 { wide: false }), if q { 997 } else { 97 }),
         // a package first revealed after a decision for another transitive package (matters with hints)
-        (Box::new(F10), if q { 499 } else { 17 }),
+        (Box::new(F10), if q { 499 } else { 61 }),
     ]
 }
 
